@@ -3,7 +3,6 @@ package promapi
 import (
 	"context"
 	"encoding/json"
-	"fmt"
 	"io"
 	"log/slog"
 	"math"
@@ -181,7 +180,7 @@ func streamSamples(r io.Reader) (samples []Sample, stats QueryStats, err error) 
 
 	dec := json.NewDecoder(r)
 	if err = decoder.Stream(dec); err != nil {
-		return nil, stats, APIError{Status: status, ErrorType: v1.ErrBadResponse, Err: fmt.Sprintf("JSON parse error: %s", err)}
+		return nil, stats, streamError(status, err)
 	}
 
 	if status != "success" {
